@@ -199,3 +199,27 @@ Definition c19_check_facade (c : case) (probes : list (Z * Z * option Z)) (npair
       && match py_pairs st with PyOk ks => (zlen ks =? npairs) | _ => false end
   | _, _ => false
   end.
+
+(* ---- the growable segment queue (tsk_ibd_finder_enqueue_segment, tables.c: the array starts with
+   max_segment_queue_size = 64 entries; "make sure we always have room for one more segment": when
+   size == max - 1 the capacity is doubled (realloc), THEN the segment is written at index size and
+   size is incremented).  In run_edges above the queue is a list; this is the array underneath it. ---- *)
+Record cqueue := mkCQ { cq_cap : nat; cq_items : list seg }.      (* size = length cq_items *)
+
+Definition cq_push (q : cqueue) (s : seg) : res cqueue :=
+  let size := length (cq_items q) in
+  let cap' := if Nat.eqb size (cq_cap q - 1) then (2 * cq_cap q)%nat else cq_cap q in
+  if Nat.ltb size cap' then Ok (mkCQ cap' (cq_items q ++ [s])) else OOB.     (* write at index size *)
+
+Fixpoint cq_fill (q : cqueue) (xs : list seg) : res cqueue :=
+  match xs with [] => Ok q | s :: t => do q' <- cq_push q s; cq_fill q' t end.
+
+(* the restructuring of seeded change C19-10: grow only when completely full, and the grow branch
+   forgets to append *)
+Definition cq_push_mutant (q : cqueue) (s : seg) : res cqueue :=
+  let size := length (cq_items q) in
+  if Nat.eqb size (cq_cap q) then Ok (mkCQ (2 * cq_cap q) (cq_items q))
+  else Ok (mkCQ (cq_cap q) (cq_items q ++ [s])).
+
+Fixpoint cq_fill_mutant (q : cqueue) (xs : list seg) : res cqueue :=
+  match xs with [] => Ok q | s :: t => do q' <- cq_push_mutant q s; cq_fill_mutant q' t end.
